@@ -189,7 +189,7 @@ def minimise(binary, plan, cls, scratch, repo, budget_s=60):
     for oi in range(len(cur['ops'])):
         for fi in range(len(cur['ops'][oi].get('faults', []))):
             f = cur['ops'][oi]['faults'][fi]
-            if f['kind'] in ('BITROT', 'SETBYTES', 'REFETCH_DIFFERS', 'DIR_BITROT') and len(f.get('a', [])) > 2:
+            if f['kind'] in ('BITROT', 'SETBYTES', 'CODEROT', 'LOOPROT', 'REFETCH_DIFFERS', 'DIR_BITROT') and len(f.get('a', [])) > 2:
                 k = 0
                 while k + 1 < len(cur['ops'][oi]['faults'][fi]['a']) and time.time() < t_end:
                     cand = copy.deepcopy(cur)
